@@ -953,6 +953,9 @@ class GateSock(object):
             h()
         return len(data)
 
+    def sendall(self, data, *a):
+        self.send(data, *a)
+
     def __getattr__(self, name):
         return getattr(self._real, name)
 
